@@ -1,5 +1,6 @@
 import Heathcliff.Proofs.C02X
 import Heathcliff.Proofs.C02S
+import Heathcliff.Proofs.C02SB
 import Heathcliff.Proofs.GenEvalSq
 import Heathcliff.Proofs.C02W
 import Heathcliff.Proofs.C02V
@@ -201,6 +202,17 @@ theorem bgvSquare_refuse : type_of% @HC.bgvSquare_refuse := @HC.bgvSquare_refuse
 theorem bgvSquare_refuse_size : type_of% @HC.bgvSquare_refuse_size := @HC.bgvSquare_refuse_size
 theorem ckksSquare_refuse : type_of% @HC.ckksSquare_refuse := @HC.ckksSquare_refuse
 theorem ckksSquare_refuse_size : type_of% @HC.ckksSquare_refuse_size := @HC.ckksSquare_refuse_size
+
+/-- S1 (BFV): `bfvSquare l T x = bfvMultiply l T x x` — the model of `bfv_square` (BEHZ with the size-2 fast path `c0², c0·c1 + c0·c1, c1²`
+    in base q and base Bsk) is the BEHZ product of the ciphertext with itself, for every ciphertext with canonical polynomials at a level
+    satisfying `MulOK` (any size, refusals included) -/
+theorem bfvSquare_eq : type_of% @HC.bfvSquare_eq := @HC.bfvSquare_eq
+
+/-- S2 (BFV): totality, shape, canonicity and closed form of the square for n ≤ 8 polynomials -/
+theorem bfvSquare_ok : type_of% @HC.bfvSquare_ok := @HC.bfvSquare_ok
+
+theorem bfvSquare_refuse_ntt : type_of% @HC.bfvSquare_refuse_ntt := @HC.bfvSquare_refuse_ntt
+theorem bfvSquare_refuse_size : type_of% @HC.bfvSquare_refuse_size := @HC.bfvSquare_refuse_size
 
 /-- non-vacuity: the fast path (size 2 → 3, factor 2·2 mod 5 = 4) and the fallback (size 3 → 5) on the example BGV level -/
 theorem bgvSquare_witness_fast : type_of% @HC.c02s_witness_fast := @HC.c02s_witness_fast
